@@ -21,6 +21,9 @@ type Agg struct {
 	P     float64 `json:"p,omitempty"`
 	Nth   int     `json:"nth,omitempty"`
 	Spell int     `json:"spell,omitempty"` // how the function name is written: 0 lower case, 1 UPPER CASE, 2 Initial capital
+	// NoAlias: written without AS; the output name is then the engine's convention, and the value is found as the one
+	// column that is neither a key, ids, window metadata nor an alias (at most one such aggregate per query)
+	NoAlias bool `json:"no_alias,omitempty"`
 }
 
 func (a Agg) name() string {
@@ -83,6 +86,9 @@ func genCase(t *rapid.T) Case {
 			a = Agg{Fn: "sum", Arg: "v"}
 		}
 		c.Aggs = append(c.Aggs, a)
+	}
+	if rapid.IntRange(0, 5).Draw(t, "noalias") == 0 {
+		c.Aggs[rapid.IntRange(0, len(c.Aggs)-1).Draw(t, "noaliasAt")].NoAlias = true
 	}
 	nkeys := 1
 	if c.Grouped {
@@ -148,13 +154,40 @@ func genCase(t *rapid.T) Case {
 }
 
 func (a Agg) sql(alias string) string {
+	as := " AS " + alias
+	if a.NoAlias {
+		as = ""
+	}
 	switch a.Fn {
 	case "percentile":
-		return fmt.Sprintf("%s(%s, %s) AS %s", a.name(), a.Arg, strconv.FormatFloat(a.P, 'f', -1, 64), alias)
+		return fmt.Sprintf("%s(%s, %s)%s", a.name(), a.Arg, strconv.FormatFloat(a.P, 'f', -1, 64), as)
 	case "nth_value":
-		return fmt.Sprintf("%s(%s, %d) AS %s", a.name(), a.Arg, a.Nth, alias)
+		return fmt.Sprintf("%s(%s, %d)%s", a.name(), a.Arg, a.Nth, as)
 	}
-	return fmt.Sprintf("%s(%s) AS %s", a.name(), a.Arg, alias)
+	return fmt.Sprintf("%s(%s)%s", a.name(), a.Arg, as)
+}
+
+// lookupAgg finds the value of aggregate i in a result row: under its alias, or - for the one aggregate written
+// without AS - as the single column that is nothing else.
+func lookupAgg(c Case, row map[string]any, i int) (any, bool) {
+	if !c.Aggs[i].NoAlias {
+		v, ok := row[fmt.Sprintf("a%d", i)]
+		return v, ok
+	}
+	known := map[string]bool{"g": true, "ids": true, "window_start": true, "window_end": true, "window_id": true}
+	for j := range c.Aggs {
+		known[fmt.Sprintf("a%d", j)] = true
+	}
+	var found []string
+	for k := range row {
+		if !known[k] {
+			found = append(found, k)
+		}
+	}
+	if len(found) != 1 {
+		return nil, false
+	}
+	return row[found[0]], true
 }
 
 func sqlOf(c Case) string {
@@ -577,7 +610,7 @@ func runCase(c Case) (res pbt.Result) {
 		rows := want[bk]
 		for i, a := range c.Aggs {
 			alias := fmt.Sprintf("a%d", i)
-			v, present := row[alias]
+			v, present := lookupAgg(c, row, i)
 			if !present {
 				res.Add(pbt.D("missing-column", "batch %v: column %s (%s) missing from result %v", bk, alias, a.sql(alias), row))
 				continue
@@ -697,7 +730,7 @@ func features(c Case) []string {
 
 var spec = pbt.Spec[Case]{
 	ID:          "C03",
-	Rule:        "generated: CountingWindow(N), N 1..8, optional group column, 1-4 consecutive batches per key through one instance; values int/float64 (negative, zero, repeats, large), NULL, missing; argument shapes v, d.v, v + w, v * 2, v - 1, v * 0.5, v * 1.5, d.v * 2 and the literal 1 (drawn per aggregate, so one query mixes them); function names in lower, upper or initial-capital spelling; SELECT list = random subset of count(*), count, sum, avg, min, max, stddev, stddevs, var, vars, median, percentile(p), first_value, last_value, nth_value, collect, deduplicate, merge_agg. oracle: reference definitions on exactly the batch's rows (NULL/missing skipped, empty input -> NULL for sum/avg/min/max, population vs sample formulas, percentile accepted between the neighbouring order statistics), plus a twin instance fed each batch permuted (order-insensitive aggregates must agree). non-trivial = a batch with a NULL/missing value and >= 2 distinct numbers, or >= 2 batches; distinct by case hash",
+	Rule:        "generated: CountingWindow(N), N 1..8, optional group column, 1-4 consecutive batches per key through one instance; values int/float64 (negative, zero, repeats, large), NULL, missing; argument shapes v, d.v, v + w, v * 2, v - 1, v * 0.5, v * 1.5, d.v * 2 and the literal 1 (drawn per aggregate, so one query mixes them); function names in lower, upper or initial-capital spelling; one aggregate of one query in six written without AS; SELECT list = random subset of count(*), count, sum, avg, min, max, stddev, stddevs, var, vars, median, percentile(p), first_value, last_value, nth_value, collect, deduplicate, merge_agg. oracle: reference definitions on exactly the batch's rows (NULL/missing skipped, empty input -> NULL for sum/avg/min/max, population vs sample formulas, percentile accepted between the neighbouring order statistics), plus a twin instance fed each batch permuted (order-insensitive aggregates must agree). non-trivial = a batch with a NULL/missing value and >= 2 distinct numbers, or >= 2 batches; distinct by case hash",
 	Assumptions: []string{"stddev/var/median/percentile over no usable input: NULL, 0 or NaN accepted (not fixed by the guide)", "first_value/last_value: a missing field may be reported as NULL or skipped; an explicit NULL is reported", "nth_value: n-th row or n-th usable value accepted"},
 	Gen:         genCase,
 	Run:         runCase,
